@@ -655,13 +655,6 @@ def load_corpus():
     return occ, fm
 
 
-BUILTIN_FMAP_CORPUS = [
-    # F6 (fixed in /repo 22afdf8): local factor, active leaf in no index set -> KeyError before the fix
-    {"text": "[0, 1], Harmonic\n", "n": 3, "nroot": 3, "gen_kind": "corpus:F6",
-     "queries": [["Harmonic", [[1, 2]]], ["Harmonic", [[1, 0], [1, 1], [1, 2]]]]},
-]
-
-
 def run(ctx, occ_override=None, fm_override=None):
     C.build_scratch(ctx)
     broken = []
@@ -690,7 +683,7 @@ def run(ctx, occ_override=None, fm_override=None):
             cfg = gen_occ_config(rng, small=ctx.quick())
             cfgs.append(cfg)
             nsteps += len(cfg["steps"])
-        jobs = BUILTIN_FMAP_CORPUS + list(c_fm) + shipped_jobs(items)
+        jobs = list(c_fm) + shipped_jobs(items)
         jobs += [gen_fmap_job(rng) for _ in range(ctx.n(300, 6000))]
     occ_out, fm_out = run_impl(ctx, cfgs, jobs)
 
